@@ -22,6 +22,7 @@ INVARIANT J_Capacity
 INVARIANT J_ReportedLoad
 INVARIANT J_Skills
 INVARIANT J_LimitDistance
+INVARIANT J_RechargeDistance
 INVARIANT J_LimitDuration
 INVARIANT J_LimitTourSize
 INVARIANT J_Groups
